@@ -124,8 +124,19 @@ def run_case(case):
             worst["gapped_excess_over_tol"] = max(worst.get("gapped_excess_over_tol", 0.0), (E - E0) / tol)
             if E - E0 > tol:
                 last = "last-time" if abs(t_rel - 1.0) < 1e-9 else "intermediate-time"
-                viol.append({"key": f"C09:energy-above-ground-energy-on-gapped-instance:{last}",
-                             "msg": f"{fp}: t={t_rel:.3g} (step {k}/{len(tt)-1}) E-E0={E-E0:.3e} tol={tol:.1e} gap={gap:.2f}", "detail": {"spec": spec}})
+                # mechanism classifier: does the returned MPS keep fewer Schmidt components across some cut than the exact ground state has above 10*precision?
+                # (2-site sweeps with truncation cannot build them up when strongly coupled atoms are far apart in the chain: known finding)
+                g0 = np.linalg.eigh(H)[1][:, 0].reshape([2] * n)
+                bonds = [int(f.shape[2]) for f in results.get_result("state", t_rel).factors[:-1]]
+                deficit = None
+                for c_ in range(n - 1):
+                    sv = np.linalg.svd(g0.reshape(2 ** (c_ + 1), -1), compute_uv=False)
+                    need = int((sv > 10 * prec).sum())
+                    if bonds[c_] < need:
+                        deficit = f"bond {c_}|{c_ + 1} is {bonds[c_]}, the exact ground state has {need} Schmidt values above 10*precision (smallest kept-out {sv[bonds[c_]]:.2e})"
+                        break
+                key = "C09:energy-above-ground-energy-on-gapped-instance:bond-dimension-below-exact-schmidt-rank" if deficit else f"C09:energy-above-ground-energy-on-gapped-instance:{last}"
+                viol.append({"key": key, "msg": f"{fp}: t={t_rel:.3g} (step {k}/{len(tt)-1}) E-E0={E-E0:.3e} tol={tol:.1e} gap={gap:.2f}" + (f"; {deficit}" if deficit else ""), "detail": {"spec": spec}})
         # the returned state: normalised, canonical, and its energy is what was reported
         st = results.get_result("state", t_rel)
         cnt["states_checked"] += 1
